@@ -5,8 +5,10 @@ An abstract *program* is ``{"templates": {name: {"extends": [parent names], "nod
 
     ["text", s]                              literal text (no Liquid syntax in it)
     ["var"]                                  {{ x }}           (x is render data, DATA)
-    ["loopvar"]                              {{ i }}           (only generated directly inside a for
-                                                               in the same block body)
+    ["loopvar"]                              {{ i }}           (the loop variable of an enclosing for)
+    ["forindex"]                             {{ forloop.index }}
+    ["withvar"]                              {{ w }}           (bound by an enclosing with)
+    ["with", [nodes]]                        {% with w: 'W' %}...{% endwith %}
     ["super"]                                {{ block.super }}
     ["for", [nodes]]                         {% for i in (1..2) %}...{% endfor %}
     ["if", [nodes]]                          {% if true %}...{% endif %}            (always taken)
@@ -41,7 +43,16 @@ Unspecified (excluded and counted, never guessed):
 * a template with two ``extends`` tags (S and D are silent);
 * a required block that nobody overrides but that is never reached when the root is rendered
   (S says "raises", but also that nothing in a child renders except through blocks);
-* a loop variable used across a block boundary (scoping of blocks is not documented);
+* names bound by ``for`` / ``with``: the output is the root "with every block replaced by its most-derived
+  definition" (S; quantifier: "variables and loops inside blocks"), so a rendered definition -- selected or
+  reached through super -- reads the loop variable, ``forloop.index`` (tag_reference.md: "a forloop object is
+  available inside every for tag block") and ``with`` names (D "with": "extends the template namespace")
+  of every construct that encloses the place where it is substituted; a name nothing binds there renders
+  as the empty string (variables_and_drops.md, default Undefined).  Two corners stay excluded: a name that
+  is bound only by a construct written around the definition in its own template but not in effect where
+  the definition is substituted (e.g. a ``for`` around a block in a child, which is not rendered), and a
+  name bound inside an overriding definition's own body and read by the parent definition through
+  ``block.super`` (substitution says visible; nothing documents what the parent's body may see);
 * resolution that re-enters a definition that is still being rendered (infinite by the statement's
   own rules: no output is defined);
 * more than one error shape in one program;
@@ -59,7 +70,7 @@ from typing import Optional
 
 DATA = {"x": "X"}
 LOOP_ITEMS = ("1", "2")  # rendering of (1..2)
-WRAPPERS = ("for", "if", "unless", "case")  # tags whose body is a node list (conditions always true)
+WRAPPERS = ("for", "if", "unless", "case", "with")  # tags whose body is a node list (conditions always true)
 
 
 def whitespace_only(body: Any) -> bool:
@@ -79,6 +90,12 @@ def print_nodes(nodes: Any) -> str:
             out.append("{{ x }}")
         elif k == "loopvar":
             out.append("{{ i }}")
+        elif k == "forindex":
+            out.append("{{ forloop.index }}")
+        elif k == "withvar":
+            out.append("{{ w }}")
+        elif k == "with":
+            out.append("{% with w: 'W' %}" + print_nodes(n[1]) + "{% endwith %}")
         elif k == "super":
             out.append("{{ block.super }}")
         elif k == "for":
@@ -132,13 +149,34 @@ def has_super_outside_block(nodes: Any) -> bool:
     return False
 
 
+BINDS = {"for": ("i", "fi"), "with": ("w",)}
+READS = {"loopvar": "i", "forindex": "fi", "withvar": "w"}
+
+
+def blocks_with_binders(nodes: Any, binders: frozenset[str] = frozenset()) -> list[tuple[Any, frozenset[str]]]:
+    """Every block (preorder) with the names bound by the constructs written around it in its template."""
+    out: list[tuple[Any, frozenset[str]]] = []
+    for n in nodes:
+        if n[0] == "block":
+            out.append((n, binders))
+            out.extend(blocks_with_binders(n[3], binders))
+        elif n[0] in WRAPPERS:
+            out.extend(blocks_with_binders(n[1], binders | frozenset(BINDS.get(n[0], ()))))
+    return out
+
+
 class _Resolver:
     def __init__(self, chain: list[Any]):
         # chain: templates root first.  defs[name] = definitions, most derived first.
         self.defs: dict[str, list[tuple[int, Any]]] = {}
+        self.lexical: dict[tuple[str, int], frozenset[str]] = {}
         for level in range(len(chain) - 1, -1, -1):
-            for b in blocks_preorder(chain[level]["nodes"]):
+            for b, binders in blocks_with_binders(chain[level]["nodes"]):
                 self.defs.setdefault(b[1], []).append((level, b))
+                self.lexical[(b[1], len(self.defs[b[1]]) - 1)] = binders
+        self.frames = 0
+        self.bound_reads = 0
+        self.bound_reads_across_block = 0
         self.unspecified: list[str] = []
         self.required_hit: Optional[str] = None
         self.active: list[tuple[str, int]] = []
@@ -149,7 +187,9 @@ class _Resolver:
         self.super_into_required = 0
         self.empty_rendered = 0
 
-    def render(self, nodes: Any, ctx: Optional[tuple[str, int]], loopval: Optional[str], sdepth: int) -> str:
+    # env: name -> (value, frame that bound it, tainted).  A frame is one rendering of one definition
+    # body (0 = the root's top level).
+    def render(self, nodes: Any, ctx: Optional[tuple[str, int]], env: dict[str, Any], frame: int, sdepth: int) -> str:
         out: list[str] = []
         for n in nodes:
             k = n[0]
@@ -157,25 +197,40 @@ class _Resolver:
                 out.append(n[1])
             elif k == "var":
                 out.append(DATA["x"])
-            elif k == "loopvar":
-                if loopval is None:
-                    self.unspecified.append("loop-variable-across-block-boundary")
+            elif k in READS:
+                b = env.get(READS[k])
+                if b is None:
+                    if ctx is not None and READS[k] in self.lexical[ctx]:
+                        self.unspecified.append("name-bound-around-the-definition-but-not-where-it-is-rendered")
+                    # else: nothing binds it: default Undefined renders as the empty string
+                elif b[2]:
+                    self.unspecified.append("name-bound-in-overriding-body-read-through-super")
                 else:
-                    out.append(loopval)
+                    self.bound_reads += 1
+                    if b[1] != frame:
+                        self.bound_reads_across_block += 1
+                    out.append(b[0])
             elif k == "for":
-                for item in LOOP_ITEMS:
-                    out.append(self.render(n[1], ctx, item, sdepth))
+                for idx, item in enumerate(LOOP_ITEMS):
+                    e2 = dict(env)
+                    e2["i"] = (item, frame, False)
+                    e2["fi"] = (str(idx + 1), frame, False)
+                    out.append(self.render(n[1], ctx, e2, frame, sdepth))
+            elif k == "with":
+                e2 = dict(env)
+                e2["w"] = ("W", frame, False)
+                out.append(self.render(n[1], ctx, e2, frame, sdepth))
             elif k in ("if", "unless", "case"):
-                out.append(self.render(n[1], ctx, loopval, sdepth))
+                out.append(self.render(n[1], ctx, env, frame, sdepth))
             elif k == "block":
-                out.append(self.block(n[1], ctx))
+                out.append(self.block(n[1], ctx, env))
             elif k == "super":
-                out.append(self.super(ctx, sdepth))
+                out.append(self.super(ctx, env, frame, sdepth))
             else:  # pragma: no cover
                 raise AssertionError(n)
         return "".join(out)
 
-    def enter(self, name: str, j: int, sdepth: int) -> str:
+    def enter(self, name: str, j: int, env: dict[str, Any], sdepth: int) -> str:
         key = (name, j)
         if key in self.active:
             self.unspecified.append("resolution-re-enters-active-definition")
@@ -187,12 +242,13 @@ class _Resolver:
         if not body:
             self.empty_rendered += 1
         self.active.append(key)
+        self.frames += 1
         try:
-            return self.render(body, key, None, sdepth)
+            return self.render(body, key, env, self.frames, sdepth)
         finally:
             self.active.pop()
 
-    def block(self, name: str, ctx: Optional[tuple[str, int]]) -> str:
+    def block(self, name: str, ctx: Optional[tuple[str, int]], env: dict[str, Any]) -> str:
         chain = self.defs[name]
         level, node = chain[0]
         self.blocks_resolved += 1
@@ -204,9 +260,9 @@ class _Resolver:
             if self.required_hit is None:
                 self.required_hit = name
             return ""
-        return self.enter(name, 0, 0)
+        return self.enter(name, 0, env, 0)
 
-    def super(self, ctx: Optional[tuple[str, int]], sdepth: int) -> str:
+    def super(self, ctx: Optional[tuple[str, int]], env: dict[str, Any], frame: int, sdepth: int) -> str:
         if ctx is None:
             self.unspecified.append("super-outside-block")
             return ""
@@ -217,7 +273,9 @@ class _Resolver:
         self.max_super_depth = max(self.max_super_depth, sdepth + 1)
         if self.defs[name][j + 1][1][2]:
             self.super_into_required += 1
-        return self.enter(name, j + 1, sdepth + 1)
+        # what the overriding body itself bound is not promised to the parent definition
+        e2 = {k: ((v[0], v[1], True) if v[1] == frame else v) for k, v in env.items()}
+        return self.enter(name, j + 1, e2, sdepth + 1)
 
 
 def walk(prog: Any) -> tuple[list[str], bool]:
@@ -271,7 +329,7 @@ def expected(prog: Any) -> dict[str, Any]:
 
     chain = [T[n] for n in reversed(order)]
     r = _Resolver(chain)
-    out = r.render(chain[0]["nodes"], None, None, 0)
+    out = r.render(chain[0]["nodes"], None, {}, 0, 0)
     stats.update(
         max_super_depth=r.max_super_depth,
         cross_level_nested=r.cross_level_nested,
@@ -279,6 +337,8 @@ def expected(prog: Any) -> dict[str, Any]:
         overridden_resolved=r.overridden_resolved,
         super_into_required=r.super_into_required,
         empty_rendered=r.empty_rendered,
+        bound_reads=r.bound_reads,
+        bound_reads_across_block=r.bound_reads_across_block,
         names_defined_twice=sum(1 for d in r.defs.values() if len(d) > 1),
     )
     if r.unspecified:
